@@ -34,3 +34,10 @@ Definition dos_unpack_tok (f : list N) : outcome (list N) :=
   if N.ltb (lenN f) 2 then RErr 2
   else let len := un_le16 f in
        if N.ltb (lenN f) (2 + len) then RErr 2 else ROk (slice f 2 len).
+
+(* ---- ProDOS binary (src/fs/prodos/pack.rs pack_bin / unpack_bin): the data goes into 512 byte chunks as is, the load
+   address into the 16 bit aux field, the length into eof; an address that does not fit is refused ---- *)
+Record pfimg := mkpfimg { pf_chunks : list (list N); pf_eof : N; pf_aux : list N }.
+Definition prodos_pack_bin (dat : list N) (addr : N) : outcome pfimg :=
+  if N.ltb 65535 addr then RErr 1 else ROk (mkpfimg (desequence 512 dat) (fimg_eof dat) (le16 addr)).
+Definition prodos_unpack_bin (f : pfimg) : N * list N := (un_le16 (pf_aux f), takeN (pf_eof f) (sequence (pf_chunks f))).
